@@ -166,7 +166,7 @@ func (k msgServer) depositForBurn(
 
 	event := types.DepositForBurn{
 		Nonce:                     nonce.Nonce,
-		BurnToken:                 hex.EncodeToString(crypto.Keccak256([]byte(burnToken))),
+		BurnToken:                 hex.EncodeToString(burnMessage.BurnToken),
 		Amount:                    amount,
 		Depositor:                 from,
 		MintRecipient:             mintRecipient,
